@@ -85,14 +85,14 @@ Section Layout.
         eapply IH; [exact Hcs| |exact E]. cbn [f1_trees]. apply fitsall_app; [exact Hd|]. right. eapply Hv; eauto.
   Qed.
 
-  Lemma pass2_fits d cl : forall (cs : list fchild) (ts : list ltree) (done : list vtree) a p,
+  Lemma pass2_fits share d cl : forall (cs : list fchild) (ts : list ltree) (done : list vtree) a p,
     Forall (fun ch => LayFits (vof ch)) cs ->
     FitsAll g (map vof cs) ts ->
     FitsAll g done (f2_trees a) ->
-    fold_left (flex_pass2 d cl) (combine (map lch cs) ts) (Ok a) = Ok p ->
+    fold_left (flex_pass2 share d cl) (combine (map lch cs) ts) (Ok a) = Ok p ->
     FitsAll g (done ++ map vof cs) (f2_trees p).
   Proof.
-    assert (Hnotok : forall l (x : outcome fl2), (forall s, x <> Ok s) -> fold_left (flex_pass2 d cl) l x = x).
+    assert (Hnotok : forall l (x : outcome fl2), (forall s, x <> Ok s) -> fold_left (flex_pass2 share d cl) l x = x).
     { induction l as [|a l IHl]; intros x Hx; cbn; auto.
       rewrite IHl; destruct x; cbn; auto; try congruence; exfalso; eapply Hx; eauto. }
     induction cs as [|[[[v' fl] fc] al] cs IH]; intros ts done a p Hall Hts Hd E.
@@ -103,8 +103,7 @@ Section Layout.
       cbn [map lch combine fold_left] in E. unfold flex_pass2 at 2 in E. cbn [bind] in E.
       cbn [map vof fst]. replace (done ++ v' :: map vof cs) with ((done ++ [v']) ++ map vof cs) by (rewrite <- app_assoc; reflexivity).
       destruct fl as [f|].
-      + destruct (f2_total a =? 0)%N; [rewrite Hnotok in E by congruence; discriminate|].
-        destruct (flex_share (f2_remain a) (N.pos f) (f2_total a) =? 0)%N.
+      + destruct (N.min (share (f2_idx a) (f2_remain a)) (f2_remain a) =? 0)%N.
         * eapply IH; [exact Hcs|exact Hts| |exact E]. cbn [f2_trees]. apply fitsall_app; assumption.
         * destruct (layout vc v' _) as [t1| | |] eqn:El; cbn [bind] in E; try (rewrite Hnotok in E by congruence; discriminate).
           eapply IH; [exact Hcs|exact Hts| |exact E]. cbn [f2_trees]. apply fitsall_app; [exact Hd|]. right. eapply Hv; eauto.
@@ -152,8 +151,8 @@ Section Layout.
       match type of E with (let* p2 := ?x in _) = _ => destruct x as [p2| | |] eqn:E2 end; try discriminate. cbn [bind] in E.
       assert (F2 : FitsAll g (map vof cs) (f2_trees p2)).
       { destruct ((0 <? _)%N && (0 <? f1_total p1)%N).
-        - apply (pass2_fits d (ct_loosen c) cs (f1_trees p1) []
-                   (mkFl2 [] (major d (c_maxh c) (c_maxw c) - f1_nonflex p1) 0 (f1_minor p1) (f1_total p1)) p2 Hall F1 I E2).
+        - apply (pass2_fits _ d (ct_loosen c) cs (f1_trees p1) []
+                   (mkFl2 [] (major d (c_maxh c) (c_maxw c) - f1_nonflex p1) 0 (f1_minor p1) 0%nat) p2 Hall F1 I E2).
         - injection E2 as <-. exact F1. }
       destruct (flex_spaces _ _ _) as [sp| | |]; try discriminate. cbn [bind] in E.
       destruct (fold_left (flex_place _ _ _) _ _) as [placed off] eqn:E3.
@@ -280,7 +279,7 @@ Section Render.
     - destruct (has_glyphs (v_r vc)) eqn:Hg.
       + destruct Hfit as (k & ks & Ek & Fk). rewrite Ek. rewrite <- Hg in Fk.
         destruct (fill_with_safe H W (apply_to sh t) wsub (r_data s)
-                    (fun r c old => frame_cell color (sh_width (apply_to sh t)) (sh_height (apply_to sh t)) c r old) Rsub Hlen)
+                    (fun r c old => frame_cell (v_frag vc) color (sh_width (apply_to sh t)) (sh_height (apply_to sh t)) c r old) Rsub Hlen)
           as (d1 & -> & [L1 _]).
         cbn [of_opt bind]. apply (IHv k (apply_to sh t) wsub (mkR d1 (r_log s)) Fk Rsub). cbn. lia.
       + rewrite <- Hg in Hfit. apply (IHv t sh w s Hfit Hrep Hlen).
